@@ -1,6 +1,8 @@
-(** C08 — (e) outside the finding classes, decided by COMPLETE enumeration of
-    the schedule tree for a few small thread sets (the bound is part of the
-    statement), and the initial store facts. *)
+(** C08 — (e) for thread sets that contain UID COPY / UID STORE (Junk move) /
+    EXPUNGE threads competing with deliveries for uid_next: decided by COMPLETE
+    enumeration of the schedule tree for a few small thread sets (the bounds are
+    part of the statement).  The unbounded theorem (Proof/ConcNoFail.v) covers
+    deliveries, appends and CREATE. *)
 From Coq Require Import String Ascii List Bool ZArith Lia Arith.
 From Raven Require Import Base.GoStr Model.Store Model.Ops Model.Conc Proof.StoreInv
   Proof.ConcStore Proof.ConcInv Proof.ConcAck.
@@ -12,48 +14,87 @@ Proof.
   intros l [].
 Qed.
 
-Definition no_failure (c : config) : bool := forallb (fun th => negb (is_failst th)) (c_threads c).
+(** no delivery / append thread has been refused, UNIQUE and UIDNEXT hold *)
+Definition no_failure (c : config) : bool :=
+  forallb (fun th => negb (is_failst th)) (c_threads c)
+  && nodup_keys (links (c_store c)) && next_above_b (c_store c).
 
 (** depth-first walk over every schedule of at most [n] steps of [k] threads;
-    a branch ends where [step_class] flags a race *)
+    a step of a thread that has replied (or does not exist) changes nothing and
+    is not walked again *)
+Definition branch (dfs' : config -> bool) (c : config) (i : tid) : bool :=
+  match thread_at c i with
+  | Some th => if finished th then true else dfs' (sched_step c i)
+  | None => true
+  end.
+
 Fixpoint dfs (k n : nat) (c : config) : bool :=
   no_failure c &&
   match n with
   | O => true
-  | S n' => forallb (fun i => match step_class c i with
-                              | Some _ => true
-                              | None => dfs k n' (sched_step c i)
-                              end) (seq 0 k)
+  | S n' => forallb (branch (dfs k n') c) (seq 0 k)
   end.
+
+Lemma dfs_mono k : forall n c, dfs k (S n) c = true -> dfs k n c = true.
+Proof.
+  induction n as [|n IH]; intros c D.
+  - simpl in *. rewrite andb_true_iff in *. tauto.
+  - change (dfs k (S (S n)) c) with (no_failure c && forallb (branch (dfs k (S n)) c) (seq 0 k)) in D.
+    change (dfs k (S n) c) with (no_failure c && forallb (branch (dfs k n) c) (seq 0 k)).
+    rewrite andb_true_iff in *. destruct D as [A D]. split; auto.
+    rewrite forallb_forall in *. intros i Hi. specialize (D i Hi). unfold branch in *.
+    destruct (thread_at c i) as [th|]; auto. destruct (finished th); auto.
+Qed.
+
+Lemma replace_same {A} : forall (l : list A) i x, nth_error l i = Some x -> replace i x l = l.
+Proof.
+  induction l as [|y r IH]; intros i x H; destruct i; simpl in *; try discriminate.
+  - injection H as ->. reflexivity.
+  - rewrite IH; auto.
+Qed.
+
+Lemma finished_noop s th : finished th = true -> thread_step s th = (s, th).
+Proof. destruct th as [[f t|f fl|a] st]; destruct st; simpl; try discriminate; reflexivity. Qed.
+
+Lemma sched_step_noop c i :
+  match thread_at c i with Some th => finished th = true | None => True end -> sched_step c i = c.
+Proof.
+  unfold thread_at, sched_step. destruct (nth_error (c_threads c) i) as [th|] eqn:N; auto.
+  intros F. rewrite (finished_noop _ _ F). rewrite replace_same; auto. destruct c; reflexivity.
+Qed.
 
 Lemma dfs_sound k : forall n c, dfs k n c = true ->
   forall sch, (length sch <= n)%nat -> Forall (fun i => (i < k)%nat) sch ->
-  classify_from c sch = None -> no_failure (run_sched sch c) = true.
+  no_failure (run_sched sch c) = true.
 Proof.
-  induction n as [|n IH]; intros c D sch L F C.
+  induction n as [|n IH]; intros c D sch L F.
   - destruct sch; [|simpl in L; lia]. simpl in *. rewrite andb_true_iff in D. tauto.
   - destruct sch as [|i r].
     + simpl in *. rewrite andb_true_iff in D. tauto.
-    + simpl in D. rewrite andb_true_iff in D. destruct D as [_ D].
+    + pose proof (dfs_mono k n c D) as Dm.
+      simpl in D. rewrite andb_true_iff in D. destruct D as [_ D].
       rewrite forallb_forall in D. inversion F as [|? ? Hi Fr]; subst.
-      specialize (D i). simpl in C. destruct (step_class c i); [discriminate|].
-      simpl. apply IH; auto.
-      * apply D. apply in_seq. lia.
-      * simpl in L. lia.
+      assert (Hin : In i (seq 0 k)) by (apply in_seq; lia).
+      specialize (D i Hin). unfold branch in D. simpl in L. simpl.
+      destruct (thread_at c i) as [th|] eqn:T.
+      * destruct (finished th) eqn:Fi.
+        -- rewrite sched_step_noop; [|rewrite T; exact Fi]. apply IH; auto. lia.
+        -- apply IH; auto. lia.
+      * rewrite sched_step_noop; [|rewrite T; exact I]. apply IH; auto. lia.
 Qed.
 
 Local Open Scope Z_scope.
-Definition D_ : str := S_ "D".
+(** a store with two messages in INBOX (row 1) *)
+Definition s2 : store := fst (op_append (fst (op_append (init 0) INBOX [])) INBOX [S_ "\Deleted"]).
+
 Definition bounded_cases : list (list prog * nat) :=
-  [ ([PDeliver INBOX 0; PDeliver INBOX 0], 13%nat);
-    ([PDeliver INBOX 0; PAppend INBOX [S_ "\Seen"]], 13%nat);
-    ([PAppend INBOX []; PAppend INBOX []], 13%nat);
-    ([PDeliver INBOX 0; PDeliver SPAM 0], 13%nat);
-    ([PDeliver D_ 5; PDeliver D_ 6], 13%nat);
-    ([PDeliver INBOX 0; PDeliver INBOX 0; PAppend INBOX []], 10%nat) ].
+  [ ([PDeliver INBOX 0; PAtomic (AUidCopy 1 [URange 1 9] INBOX); PAppend INBOX []], 12%nat);
+    ([PDeliver SPAM 0; PAtomic (AUidStore 1 [UOne 1] SAdd [JUNK]); PDeliver SPAM 0], 12%nat);
+    ([PDeliver INBOX 0; PAtomic (AExpunge 1); PAtomic (AUidCopy 1 [UOne 2] INBOX)], 12%nat);
+    ([PDeliver (S_ "D") 5; PDeliver (S_ "D") 6; PAtomic (ACreate (S_ "D") 7)], 12%nat) ].
 
 Definition bounded_check : bool :=
-  forallb (fun '(ps, n) => dfs (length ps) n (init_cfg (init 0) ps)) bounded_cases.
+  forallb (fun '(ps, n) => dfs (length ps) n (init_cfg s2 ps)) bounded_cases.
 
 Lemma bounded_check_ok : bounded_check = true.
 Proof. vm_compute. reflexivity. Qed.
@@ -61,10 +102,9 @@ Proof. vm_compute. reflexivity. Qed.
 Lemma c08_bounded_l : forall ps n sch,
   In (ps, n) bounded_cases -> (length sch <= n)%nat ->
   Forall (fun i => (i < length ps)%nat) sch ->
-  classify (init 0) ps sch = None ->
-  no_failure (run_sched sch (init_cfg (init 0) ps)) = true.
+  no_failure (run_sched sch (init_cfg s2 ps)) = true.
 Proof.
-  intros ps n sch I L F C. pose proof bounded_check_ok as B. unfold bounded_check in B.
+  intros ps n sch I L F. pose proof bounded_check_ok as B. unfold bounded_check in B.
   rewrite forallb_forall in B. specialize (B _ I). cbn beta iota in B.
   eapply dfs_sound; eauto.
 Qed.
